@@ -342,10 +342,9 @@ theorem incCall_good (bk : Backend) (o a : Nat) :
     · refine blindOk_ofSk _ _ _ _ _ ?_
       intro v hv
       change v ∈ needBlind (flatList MmapedValue_inc) [] at hv
-      have h : needBlind (flatList MmapedValue_inc) [] = [.timestamp] := by decide
-      rw [h] at hv
-      simp only [List.mem_cons, List.not_mem_nil, or_false] at hv
-      subst hv; rfl
+      have h : ∀ v ∈ needBlind (flatList MmapedValue_inc) [], v ≠ Var.value := by decide
+      have hne := h v hv
+      simp [incBlind, hne]
 
 theorem getCall_good (bk : Backend) (o : Nat) :
     wellLockedCode bk (getCall bk o).bl0 (getCall bk o).code0 = true ∧ (getCall bk o).Respects bk ∧
